@@ -160,6 +160,10 @@ impl tower::Service<Request<Bytes>> for Svc {
             if let Some(ms) = h.get("x-sleep-ms").and_then(|s| s.parse::<u64>().ok()) {
                 tokio::time::sleep(Duration::from_millis(ms)).await;
             }
+            if let Some(ms) = h.get("x-block-ms").and_then(|s| s.parse::<u64>().ok()) {
+                // a handler that does not yield (blocking / CPU-bound user code)
+                std::thread::sleep(std::time::Duration::from_millis(ms));
+            }
             if h.contains_key("x-hang") {
                 futures::future::pending::<()>().await;
             }
@@ -231,6 +235,54 @@ pub fn start_node_limited(fabric: &Fabric, seed: u64, idx: u16, cfg: Config) -> 
     let shared = svc.shared();
     let limited = tower::limit::ConcurrencyLimit::new(svc, 1);
     let net = Network::bind("127.0.0.1:0").private_key(key).server_name("verif").config(cfg).verif_socket(sock).start(limited)?;
+    let id = net.peer_id();
+    Ok(Node { net, addr, id, svc: shared, key })
+}
+
+/// turns a service that fails with an `rpc::Status` into an infallible one (what generated servers do)
+#[derive(Clone)]
+pub struct StatusToResponse<S>(pub S);
+impl<S> tower::Service<Request<Bytes>> for StatusToResponse<S>
+where
+    S: tower::Service<Request<Bytes>, Response = Response<Bytes>, Error = anemo::rpc::Status>,
+    S::Future: Send + 'static,
+{
+    type Response = Response<Bytes>;
+    type Error = Infallible;
+    type Future = Pin<Box<dyn Future<Output = Result<Response<Bytes>, Infallible>> + Send>>;
+    fn poll_ready(&mut self, cx: &mut Context<'_>) -> Poll<Result<(), Infallible>> {
+        match self.0.poll_ready(cx) {
+            Poll::Ready(_) => Poll::Ready(Ok(())),
+            Poll::Pending => Poll::Pending,
+        }
+    }
+    fn call(&mut self, req: Request<Bytes>) -> Self::Future {
+        use anemo::types::response::IntoResponse;
+        let f = self.0.call(req);
+        Box::pin(async move {
+            Ok(match f.await {
+                Ok(x) => x,
+                Err(s) => s.into_response(),
+            })
+        })
+    }
+}
+
+/// a node whose service sits behind anemo-tower's per-peer in-flight limit
+pub fn start_node_inflight(fabric: &Fabric, seed: u64, idx: u16, cfg: Config, max: usize, block: bool) -> anyhow::Result<Node> {
+    use anemo_tower::inflight_limit::{InflightLimitLayer, WaitMode};
+    let key = key_of(seed, idx);
+    let addr = Fabric::addr(idx);
+    let sock = fabric.socket(addr);
+    let svc = Svc::new();
+    let shared = svc.shared();
+    use anemo::rpc::Status;
+    use tower::ServiceExt;
+    let _ = InflightLimitLayer::new;
+    let inner = svc.map_err(|e: Infallible| -> Status { match e {} });
+    let limited = anemo_tower::inflight_limit::InflightLimit::new(inner, max, if block { WaitMode::Block } else { WaitMode::ReturnError });
+    let layered = StatusToResponse(limited);
+    let net = Network::bind("127.0.0.1:0").private_key(key).server_name("verif").config(cfg).verif_socket(sock).start(layered)?;
     let id = net.peer_id();
     Ok(Node { net, addr, id, svc: shared, key })
 }
